@@ -442,7 +442,7 @@ def conditions(tier: str, seed: int) -> typing.List[Cond]:
                     stubs=["Path.rglob and the name `set` in _namespace / _namespace_reader / _dsdl permuted (models directory "
                            "enumeration order and hash seed)"],
                     witness={"rs": 0, "ls": 0, "oi": 0}, budget=1800.0, need_exhaust=True))
-    for sp in (["abs", "rel", "mixed", "symlink"] if thorough else ["abs", "mixed"]):
+    for sp in (["abs", "rel", "mixed", "symlink"] if thorough else ["abs", "rel", "mixed"]):
         out.append(Cond(PROP, "c10.files", make_files, {"spelling": sp}, {"si": int, "oi": int, "rev": int}, kind="choice",
                         assumptions=["every subset of 1..3 of 7 target files x %d orders x (as listed | reversed with a "
                                      "duplicate); spelling %s" % (len(ORDERS), sp)],
